@@ -86,7 +86,7 @@ func (p c09) Run(runseed uint64, tier string, acc *Acc) []*core.Violation {
 	r := core.NewRng(runseed)
 	w := core.GenHistory(r, c09Opts(tier))
 	acc.Runs++
-	sinkKind := []string{"w", "wx"}[r.Intn(2)]
+	sinkKind := []string{"w", "wx", "w", "wx", "ws"}[r.Intn(5)]
 	ref, ok := refWriteKind(w, sinkKind)
 	if !ok {
 		acc.Unusable++
@@ -229,7 +229,7 @@ func (p c09) Shrink(c *core.Case) []*core.Case {
 		n.SinkFault = &g
 		out = append(out, &n)
 	}
-	if c.SinkKind == "wx" {
+	if c.SinkKind == "wx" || c.SinkKind == "ws" {
 		n := *c
 		n.SinkKind = "w"
 		out = append(out, &n)
